@@ -108,7 +108,7 @@ void harness (void)
     VH_IN (vh_u32, in_b0); VH_IN (vh_u32, in_b1); VH_IN (vh_u32, in_b2); VH_IN (vh_u32, in_b3); VH_IN (vh_u32, in_b4);
     VH_IN (vh_u32, in_b5); VH_IN (vh_u32, in_b6); VH_IN (vh_u32, in_b7); VH_IN (vh_u32, in_b8); VH_IN (vh_u32, in_b9);
     const vh_u32 init[10] = { in_b0, in_b1, in_b2, in_b3, in_b4, in_b5, in_b6, in_b7, in_b8, in_b9 };
-    int i, row, gw, gs, px, in_row;
+    int i, row, gw, gs, px, is_row;
     unsigned old, new_;
     sf_i64 expect;
 
@@ -143,10 +143,10 @@ void harness (void)
     gs = in_g % PPW;                        /* slot inside the word */
     old = GET (buf + gw * CPW, gs);
     /* is the ghost slot pixel px < width of the rasterised row? */
-    in_row = (gw >= 1 + row * STRIDE && gw < 1 + row * STRIDE + ROWW);
+    is_row = (gw >= 1 + row * STRIDE && gw < 1 + row * STRIDE + ROWW);
     px = (gw - (1 + row * STRIDE)) * PPW + gs;
     if (px >= in_width)
-        in_row = 0;
+        is_row = 0;
 
     setup (&im, buf, in_width);
 
@@ -161,7 +161,7 @@ void harness (void)
 #endif
     rast (&im, in_lx, in_rx, in_y);
     new_ = GET (buf + gw * CPW, gs);
-    if (in_row)
+    if (is_row)
     {
 #ifdef VC_MID
         {
